@@ -313,7 +313,12 @@ func (r *rw) expr(e ast.Expr) ast.Expr {
 						}
 						return &ast.CallExpr{Fun: sel("simrt", "Sleep"), Args: args}
 					case "AfterFunc":
-						die(fmt.Errorf("%s: time.AfterFunc is not supported by the instrumenter", r.fset.Position(x.Pos())))
+						args := []ast.Expr{r.site("afterfunc", x.Pos())}
+						for _, a := range x.Args {
+							args = append(args, r.expr(a))
+						}
+						r.timeRewritten = true
+						return &ast.CallExpr{Fun: sel("simrt", "AfterFunc"), Args: args}
 					}
 				}
 				if pn, ok := r.info.Uses[id].(*types.PkgName); ok && pn.Imported().Path() == "sync" {
